@@ -313,28 +313,159 @@ def spec_check(case, impl):
                 r = check_types_bit(ast, ty, (bits >> k) & 1, nm)
                 if r:
                     return r
-        # last: the only kind of failure a known finding can excuse
-        for a in sorted(exp):
-            if mine(a) and a not in got:
-                return "missing-match: %r spells the pattern but is not matched" % a
+        # last: the only kind of failure a known finding can excuse; a miss no
+        # finding explains is reported before the explained ones
+        missing = [a for a in sorted(exp) if mine(a) and a not in got]
+        if missing:
+            missing.sort(key=lambda a: miss_cause(ast, a) is not None)
+            return "missing-match: %r spells the pattern but is not matched" % missing[0]
         return None
     return "crash: unknown case kind"
 
+# ---- which misses a known finding explains -----------------------------------
+# A known-finding class must not swallow a different violation in a pattern that
+# merely violates a side condition.  A miss is excused only when THIS address
+# needs what the finding says the code cannot do:
+#   alt-not-prefix-free  every spelling of the address departs from the
+#                        first-alternative-that-fits / longest-digit-run run at a
+#                        group where two alternatives are both prefixes of the
+#                        address, and that run fails later;
+#   enum-then-digit      ... departs from it at an enumeration whose longest digit
+#                        run swallows digits the next segment has to spell;
+#   star-at-end          the run succeeds and a '*' that ends the pattern (no '/',
+#                        no ':types') has to stand for non-empty text.
+# The reference run below is written from the two finding texts in
+# known-findings.txt (first alternative that fits, longest digit run, no way
+# back); it is used for classification only, never for a verdict.
+def all_spellings(ast, addr):
+    """every way the address spells the pattern, as tuples of segment ends"""
+    segs, sub, types = ast
+    out = []
+    def go(i, pos, acc):
+        if i == len(segs):
+            if (addr[pos:pos + 1] == b"/") if sub else (pos == len(addr)):
+                out.append(tuple(acc))
+            return
+        k, v = segs[i]
+        if k == "L":
+            if addr.startswith(v, pos):
+                go(i + 1, pos + len(v), acc + [pos + len(v)])
+        elif k == "S":
+            e = pos
+            go(i + 1, e, acc + [e])
+            while e < len(addr) and addr[e] != 47:
+                e += 1
+                go(i + 1, e, acc + [e])
+        elif k == "E":
+            e = pos
+            while e < len(addr) and isdig(addr[e]):
+                e += 1
+                if int(addr[pos:e]) < int(v):
+                    go(i + 1, e, acc + [e])
+        else:
+            for e in sorted({pos + len(a) for a in v if addr.startswith(a, pos)}):
+                go(i + 1, e, acc + [e])
+    go(0, 0, [])
+    return out
+
+def committed_run(ast, addr):
+    """(ends, ok): one choice per segment and no way back - the first alternative
+    in pattern order that is a prefix, the longest digit run, '*' up to the next
+    '/'.  ends has an entry for every segment whose extent is defined (also for
+    an enumeration whose value is too large)."""
+    segs, sub, types = ast
+    pos, ends = 0, []
+    for k, v in segs:
+        if k == "L":
+            if not addr.startswith(v, pos):
+                return ends, False
+            pos += len(v)
+        elif k == "S":
+            while pos < len(addr) and addr[pos] != 47:
+                pos += 1
+        elif k == "E":
+            e = pos
+            while e < len(addr) and isdig(addr[e]):
+                e += 1
+            if e == pos:
+                return ends, False
+            ends.append(e)
+            if int(addr[pos:e]) >= int(v):
+                return ends, False
+            pos = e
+            continue
+        else:
+            for a in v:
+                if addr.startswith(a, pos):
+                    pos += len(a)
+                    break
+            else:
+                return ends, False
+        ends.append(pos)
+    return ends, ((addr[pos:pos + 1] == b"/") if sub else (pos == len(addr)))
+
+def miss_cause(ast, addr):
+    """the known-finding class that explains why an address which spells the
+    pattern is not matched, or None"""
+    segs, sub, types = ast
+    sp = all_spellings(ast, addr)
+    if not sp:
+        return None
+    g, ok = committed_run(ast, addr)
+    if ok:
+        if segs and segs[-1][0] == "S" and not sub and types is None:
+            start = g[-2] if len(g) >= 2 else 0
+            if g[-1] > start:
+                return "star-at-end"
+        return None
+    best = None
+    for p in sp:
+        j = 0
+        while j < len(g) and j < len(p) and p[j] == g[j]:
+            j += 1
+        if j >= len(g) or j >= len(p):
+            return None                      # a spelling the committed run does not leave: unexplained
+        k = segs[j][0]
+        if k == "E" and p[j] < g[j]:
+            c = "enum-then-digit"
+        elif k == "A":
+            c = "alt-not-prefix-free"
+        else:
+            return None
+        if best is None or j < best[0]:
+            best = (j, c)
+    return best[1]
+
+def sweep_missing(case, impl):
+    f = case.split(" ")
+    alph, maxlen, first = unhx(f[2]), int(f[3]), int(f[4])
+    ast, exp = expected_sweep(f[6], alph, maxlen)
+    d = dict(kv.split("=", 1) for kv in impl.split(" "))
+    got = set()
+    if d["M"]:
+        for e in d["M"].split(";"):
+            got.add(unhx(e.split("/")[0]))
+    mine = lambda a: (first < 0 and a == b"") or (first >= 0 and a[:1] == alph[first:first + 1])
+    return ast, [a for a in sorted(exp) if mine(a) and a not in got]
+
 def classify(case, impl, failure):
-    """known-finding classes = the side conditions of C05_path_partial"""
+    """known-finding classes.  Narrower than the side conditions of
+    C05_path_partial: a missing match is excused only when the address needs the
+    backtracking the finding describes (miss_cause); in a sweep EVERY missing
+    address must be explained."""
     if not failure.startswith("missing-match"):
         return None
     f = case.split(" ")
-    ast = dec_ast(f[4] if f[0] == "one" else f[6])
-    if ast[0] and ast[0][-1][0] == "S" and not ast[1] and ast[2] is None:
-        return "star-at-end"
-    if ast[0] and ast[0][-1][0] == "S" and len(ast[0]) >= 2 and ast[0][-2][0] == "E":
-        return "enum-then-digit"
-    if not alts_prefix_free(ast):
-        return "alt-not-prefix-free"
-    if not enum_delimited(ast):
-        return "enum-then-digit"
-    return None
+    try:
+        if f[0] == "one":
+            return miss_cause(dec_ast(f[4]), unhx(f[2]))
+        ast, missing = sweep_missing(case, impl)
+    except Exception:
+        return None
+    causes = [miss_cause(ast, a) for a in missing]
+    if not causes or any(c is None for c in causes):
+        return None
+    return causes[0]
 
 def nontrivial(case, impl):
     f = case.split(" ")
@@ -509,12 +640,15 @@ LEVEL_TEXT = ("Partial. Proved for ALL well-formed patterns, addresses (NUL-free
               "no size bound: (full) every match spells the pattern - literals verbatim, one of the alternatives, every "
               "index < N, path ends / continues after '/' as the pattern says - and returns the ':types' part "
               "(C05_no_spurious, C05_index_bound, C05_callback_index_bound, C05_match_sound); the type matcher admits "
-              "every alternative and nothing that is not an alternative or an extension of the last one "
-              "(C05_types_complete, C05_types_sound); the three copies of the type matcher agree (C05_copies_agree); the "
+              "exactly the alternatives and the proper extensions of the LAST non-empty alternative "
+              "(C05_types_complete, C05_types_sound, C05_types_ext_last_only, C05_match_types_exact; 'every "
+              "alternative is extensible' is C05_types_ext_every_refuted - the property text tolerates extensions, "
+              "the Python oracle gives no verdict on them, the model/implementation tie fixes them); the three copies of the type matcher agree (C05_copies_agree); the "
               "loop terminates for every pattern string (C05_path_total). (partial) every address that spells the pattern is "
               "matched UNDER alts_prefix_free and enum_delimited (C05_path_partial, C05_match_partial); without them the "
               "statement is false of the code (C05_path_refuted {a,ab}c/abc, C05_enum_refuted #2{1,a}/01): known findings "
-              "alt-not-prefix-free, enum-then-digit.")
+              "alt-not-prefix-free, enum-then-digit.  The classifier is narrower than the side conditions: a missing "
+              "match is excused only when the address itself needs the backtracking (miss_cause in the plug-in).")
 LEVEL_NOTE = ("Trusted: Coq kernel, extraction (ExtrOcamlBasic), OCaml driver, harness, generators, the Python Spec oracle. "
               "The C code is modelled by hand (coq/Match/MatchModel.v, follows the repaired rtosc_match_args) and related to "
               "the model by the exhaustive small-scope correspondence run under ASan. atoi on more than 9 digits is outside "
